@@ -135,3 +135,15 @@ if old != body:
 for u in unavailable:
     print('PIN-UNAVAILABLE ' + u)
 print('extracted %d constants, %d unavailable' % (len(out), len(unavailable)))
+
+# --- source-to-Lean translators (harness/trans_*.py -> lean/PelGen/Gen*.lean), see harness/pytrans.py
+import glob
+sys.path.insert(0, os.path.join(VERIF, 'harness'))
+ngen = 0
+for tp in sorted(glob.glob(os.path.join(VERIF, 'harness', 'trans_*.py'))):
+    mod = importlib.import_module(os.path.basename(tp)[:-3])
+    gen = mod.generate(REPO, VERIF)          # -> pytrans.GenFile (definitions collected, nothing raised)
+    for u in gen.write(build=os.environ.get('VERIF_TRANS_NOBUILD') != '1'):
+        print('TRANSLATION-UNAVAILABLE ' + u)
+    ngen += len(gen.defs)
+print('translated %d functions from the source text' % ngen)
